@@ -12,7 +12,7 @@ from msmart.device import AirConditioner as AC
 
 ID = "C10"
 LEVEL = "exploration"
-RULE = ("a case = one requested state assigned through the public setters (one batch in five: eco/turbo/sleep/freeze protection through their deprecated alias setters; half of the batches against a device that adds a report of its momentary state to every reply, property commands included) and sent with AirConditioner.apply() to a simulated V2 device; "
+RULE = ("a case = one requested state assigned through the public setters (one batch in five: eco/turbo/sleep/freeze protection through their deprecated alias setters; one in three: plain ints for the IntEnum-typed settings; half of the batches against a device that adds a report of its momentary state to every reply, property commands included) and sent with AirConditioner.apply() to a simulated V2 device; "
         "the 0x40 body the device received is decoded with the vendor-layout reference decoder (mv/ref/acstate.decode_0x40) and compared "
         "field by field (power, mode, setpoint, fan, swing, eco, turbo, sleep, unit, freeze protection, follow-me, purifier, humidity, "
         "aux mode, beep); a run-wide map body->state detects two distinct states with the same body. Exhaustive: every value of every field, "
@@ -76,7 +76,7 @@ def generate(ctx, rng):
         batch.append(st)
         if len(batch) == BATCH:
             yield ("batch", n), {"states": batch, "profile": profiles[n % 4], "pending": n % 3 == 1, "pseed": rng.getrandbits(32),
-                                 "aliases": n % 5 == 2, "chatty": n % 4 in (1, 2)}
+                                 "aliases": n % 5 == 2, "chatty": n % 4 in (1, 2), "ints": n % 3 == 2}
             n += 1
             batch = []
     if batch:
@@ -136,7 +136,7 @@ def run_case(ctx, case):
             await ac.get_capabilities()
         for st in states:
             n0 = len(dev.ac.controls)
-            gen.apply_to_ac(ac, st, aliases=bool(case.get("aliases")))
+            gen.apply_to_ac(ac, st, aliases=bool(case.get("aliases")), ints=bool(case.get("ints")))
             if case.get("pending") and pr.random() < 0.6:
                 touch_properties(ac)
             try:
@@ -149,9 +149,9 @@ def run_case(ctx, case):
 
     H.run_virtual(go, net)
     for st, status, val in results:
-        key = gen.state_key(st) + (case.get("profile"), bool(case.get("pending")), bool(case.get("aliases")), bool(case.get("chatty")))
+        key = gen.state_key(st) + (case.get("profile"), bool(case.get("pending")), bool(case.get("aliases")), bool(case.get("chatty")), bool(case.get("ints")))
         ctx.count(key, kind="apply" + ("+" + case["profile"] if case.get("profile") else "") + ("+pending-props" if case.get("pending") else "")
-                  + ("+alias-setters" if case.get("aliases") else "") + ("+chatty-device" if case.get("chatty") else ""),
+                  + ("+alias-setters" if case.get("aliases") else "") + ("+int-values-for-enums" if case.get("ints") else "") + ("+chatty-device" if case.get("chatty") else ""),
                   sample=st if st["target_temperature"] > 30 else None)
         if status == "raised":
             ctx.violation("apply-raises", f"apply() raised {type(val).__name__}: {val}", {"states": [st]})
